@@ -1,0 +1,535 @@
+// SPDX-FileCopyrightText: Copyright (c) 2022-2025 Objectionary.com
+// SPDX-License-Identifier: MIT
+
+//! Seams for deterministic simulation, compiled only with the `verif`
+//! cargo feature. With the feature off this file is not part of the crate.
+//!
+//! Three things live here:
+//!
+//! * [`fs`] — what `serialization.rs` sees instead of `std::fs`: the same
+//!   functions, forwarded to a simulated disk when one is installed for the
+//!   current thread and to `std::fs` otherwise;
+//! * [`collections`] — `HashMap`/`HashSet` with a hasher whose key comes from
+//!   a thread-local seed instead of `RandomState`;
+//! * [`Snapshot`] — the complete internal state of a graph in plain types.
+
+#![allow(missing_docs, clippy::all, clippy::pedantic, clippy::nursery)]
+
+use crate::{Hex, Label, Persistence, Sodg};
+
+/// What replaces `std::fs` inside the crate.
+pub mod fs {
+    pub use std::fs::*;
+
+    use std::cell::RefCell;
+    use std::io;
+    use std::path::Path;
+    use std::rc::Rc;
+
+    /// A simulated disk. All calls of one `save()`/`load()` arrive here
+    /// in program order; the implementation decides what each one returns.
+    pub trait Disk {
+        /// `open(O_CREAT | O_WRONLY | O_TRUNC)`.
+        fn create(&mut self, path: &Path) -> io::Result<u64>;
+        /// `open(O_RDONLY)`.
+        fn open(&mut self, path: &Path) -> io::Result<u64>;
+        /// `write(2)`: may be short.
+        fn write(&mut self, handle: u64, buf: &[u8]) -> io::Result<usize>;
+        /// `read(2)`: may be short, 0 means EOF.
+        fn read(&mut self, handle: u64, buf: &mut [u8]) -> io::Result<usize>;
+        /// `fsync(2)`.
+        fn sync(&mut self, handle: u64) -> io::Result<()>;
+        /// `close(2)`.
+        fn close(&mut self, handle: u64);
+        /// `rename(2)`.
+        fn rename(&mut self, from: &Path, to: &Path) -> io::Result<()>;
+        /// `unlink(2)`.
+        fn remove(&mut self, path: &Path) -> io::Result<()>;
+    }
+
+    thread_local! {
+        static DISK: RefCell<Option<Rc<RefCell<dyn Disk>>>> = const { RefCell::new(None) };
+    }
+
+    /// Install (or remove, with `None`) the simulated disk of this thread.
+    pub fn install(disk: Option<Rc<RefCell<dyn Disk>>>) {
+        DISK.with(|d| *d.borrow_mut() = disk);
+    }
+
+    fn current() -> Option<Rc<RefCell<dyn Disk>>> {
+        DISK.with(|d| d.borrow().clone())
+    }
+
+    /// Closes the handle also when the call is left by unwinding.
+    struct Guard(Rc<RefCell<dyn Disk>>, u64);
+
+    impl Drop for Guard {
+        fn drop(&mut self) {
+            if let Ok(mut d) = self.0.try_borrow_mut() {
+                d.close(self.1);
+            }
+        }
+    }
+
+    /// Same contract as `std::fs::write`: create+truncate, `write_all`, close, no sync.
+    pub fn write<P: AsRef<Path>, C: AsRef<[u8]>>(path: P, contents: C) -> io::Result<()> {
+        let Some(disk) = current() else {
+            return std::fs::write(path, contents);
+        };
+        let h = disk.borrow_mut().create(path.as_ref())?;
+        let guard = Guard(disk, h);
+        let mut buf = contents.as_ref();
+        while !buf.is_empty() {
+            let r = guard.0.borrow_mut().write(h, buf);
+            match r {
+                Ok(0) => {
+                    return Err(io::Error::new(
+                        io::ErrorKind::WriteZero,
+                        "failed to write whole buffer",
+                    ))
+                }
+                Ok(n) => buf = &buf[n..],
+                Err(e) if e.kind() == io::ErrorKind::Interrupted => {}
+                Err(e) => return Err(e),
+            }
+        }
+        Ok(())
+    }
+
+    /// Same contract as `std::fs::read`.
+    pub fn read<P: AsRef<Path>>(path: P) -> io::Result<Vec<u8>> {
+        let Some(disk) = current() else {
+            return std::fs::read(path);
+        };
+        let h = disk.borrow_mut().open(path.as_ref())?;
+        let guard = Guard(disk, h);
+        let mut out = Vec::new();
+        let mut chunk = [0_u8; 4096];
+        loop {
+            let r = guard.0.borrow_mut().read(h, &mut chunk);
+            match r {
+                Ok(0) => return Ok(out),
+                Ok(n) => out.extend_from_slice(&chunk[..n]),
+                Err(e) if e.kind() == io::ErrorKind::Interrupted => {}
+                Err(e) => return Err(e),
+            }
+        }
+    }
+
+    /// Same contract as `std::fs::rename`.
+    pub fn rename<P: AsRef<Path>, Q: AsRef<Path>>(from: P, to: Q) -> io::Result<()> {
+        match current() {
+            Some(disk) => disk.borrow_mut().rename(from.as_ref(), to.as_ref()),
+            None => std::fs::rename(from, to),
+        }
+    }
+
+    /// Same contract as `std::fs::remove_file`.
+    pub fn remove_file<P: AsRef<Path>>(path: P) -> io::Result<()> {
+        match current() {
+            Some(disk) => disk.borrow_mut().remove(path.as_ref()),
+            None => std::fs::remove_file(path),
+        }
+    }
+
+    enum Inner {
+        Real(std::fs::File),
+        Sim(Guard),
+    }
+
+    /// The subset of `std::fs::File` a streaming `save()`/`load()` would need.
+    pub struct File(Inner);
+
+    impl File {
+        pub fn create<P: AsRef<Path>>(path: P) -> io::Result<Self> {
+            match current() {
+                Some(disk) => {
+                    let h = disk.borrow_mut().create(path.as_ref())?;
+                    Ok(Self(Inner::Sim(Guard(disk, h))))
+                }
+                None => Ok(Self(Inner::Real(std::fs::File::create(path)?))),
+            }
+        }
+
+        pub fn open<P: AsRef<Path>>(path: P) -> io::Result<Self> {
+            match current() {
+                Some(disk) => {
+                    let h = disk.borrow_mut().open(path.as_ref())?;
+                    Ok(Self(Inner::Sim(Guard(disk, h))))
+                }
+                None => Ok(Self(Inner::Real(std::fs::File::open(path)?))),
+            }
+        }
+
+        pub fn sync_all(&self) -> io::Result<()> {
+            match &self.0 {
+                Inner::Real(f) => f.sync_all(),
+                Inner::Sim(g) => g.0.borrow_mut().sync(g.1),
+            }
+        }
+
+        pub fn sync_data(&self) -> io::Result<()> {
+            self.sync_all()
+        }
+    }
+
+    impl io::Write for File {
+        fn write(&mut self, buf: &[u8]) -> io::Result<usize> {
+            match &mut self.0 {
+                Inner::Real(f) => f.write(buf),
+                Inner::Sim(g) => g.0.borrow_mut().write(g.1, buf),
+            }
+        }
+
+        fn flush(&mut self) -> io::Result<()> {
+            match &mut self.0 {
+                Inner::Real(f) => f.flush(),
+                Inner::Sim(_) => Ok(()),
+            }
+        }
+    }
+
+    impl io::Read for File {
+        fn read(&mut self, buf: &mut [u8]) -> io::Result<usize> {
+            match &mut self.0 {
+                Inner::Real(f) => f.read(buf),
+                Inner::Sim(g) => g.0.borrow_mut().read(g.1, buf),
+            }
+        }
+    }
+}
+
+/// What replaces `std::collections` inside the crate.
+pub mod collections {
+    pub use std::collections::*;
+
+    use std::cell::Cell;
+    use std::hash::{BuildHasher, Hash, Hasher};
+    use std::ops::{Deref, DerefMut, Sub};
+
+    thread_local! {
+        static SEED: Cell<u64> = const { Cell::new(0x9E37_79B9_7F4A_7C15) };
+        static MADE: Cell<u64> = const { Cell::new(0) };
+    }
+
+    /// All containers made on this thread from now on take their key from `seed`.
+    pub fn set_hash_seed(seed: u64) {
+        SEED.with(|s| s.set(seed));
+    }
+
+    /// How many seeded containers this thread has made so far.
+    #[must_use]
+    pub fn containers_made() -> u64 {
+        MADE.with(Cell::get)
+    }
+
+    #[derive(Clone, Copy, Debug)]
+    pub struct SimState(u64);
+
+    impl SimState {
+        #[must_use]
+        pub fn new() -> Self {
+            let k = SEED.with(|s| {
+                let k = s.get();
+                s.set(k.wrapping_add(0x9E37_79B9_7F4A_7C15));
+                k
+            });
+            MADE.with(|m| m.set(m.get() + 1));
+            Self(k)
+        }
+    }
+
+    impl Default for SimState {
+        fn default() -> Self {
+            Self::new()
+        }
+    }
+
+    impl BuildHasher for SimState {
+        type Hasher = SimHasher;
+        fn build_hasher(&self) -> SimHasher {
+            SimHasher(self.0)
+        }
+    }
+
+    #[derive(Clone, Copy, Debug)]
+    pub struct SimHasher(u64);
+
+    impl Hasher for SimHasher {
+        fn finish(&self) -> u64 {
+            let mut z = self.0;
+            z = (z ^ (z >> 30)).wrapping_mul(0xBF58_476D_1CE4_E5B9);
+            z = (z ^ (z >> 27)).wrapping_mul(0x94D0_49BB_1331_11EB);
+            z ^ (z >> 31)
+        }
+
+        fn write(&mut self, bytes: &[u8]) {
+            for b in bytes {
+                self.0 = (self.0.rotate_left(5) ^ u64::from(*b)).wrapping_mul(0x0100_0000_01B3);
+            }
+        }
+
+        fn write_u64(&mut self, i: u64) {
+            self.0 = (self.0.rotate_left(23) ^ i).wrapping_mul(0x2545_F491_4F6C_DD1D);
+        }
+
+        fn write_usize(&mut self, i: usize) {
+            self.write_u64(i as u64);
+        }
+
+        fn write_u32(&mut self, i: u32) {
+            self.write_u64(u64::from(i));
+        }
+    }
+
+    #[derive(Clone, Debug)]
+    pub struct HashMap<K, V>(std::collections::HashMap<K, V, SimState>);
+
+    impl<K, V> HashMap<K, V> {
+        #[must_use]
+        pub fn new() -> Self {
+            Self(std::collections::HashMap::with_hasher(SimState::new()))
+        }
+
+        #[must_use]
+        pub fn with_capacity(n: usize) -> Self {
+            Self(std::collections::HashMap::with_capacity_and_hasher(
+                n,
+                SimState::new(),
+            ))
+        }
+    }
+
+    impl<K, V> Default for HashMap<K, V> {
+        fn default() -> Self {
+            Self::new()
+        }
+    }
+
+    impl<K, V> Deref for HashMap<K, V> {
+        type Target = std::collections::HashMap<K, V, SimState>;
+        fn deref(&self) -> &Self::Target {
+            &self.0
+        }
+    }
+
+    impl<K, V> DerefMut for HashMap<K, V> {
+        fn deref_mut(&mut self) -> &mut Self::Target {
+            &mut self.0
+        }
+    }
+
+    impl<K: Eq + Hash, V> FromIterator<(K, V)> for HashMap<K, V> {
+        fn from_iter<I: IntoIterator<Item = (K, V)>>(iter: I) -> Self {
+            let mut m = Self::new();
+            m.0.extend(iter);
+            m
+        }
+    }
+
+    impl<K: Eq + Hash, V, const M: usize> From<[(K, V); M]> for HashMap<K, V> {
+        fn from(a: [(K, V); M]) -> Self {
+            a.into_iter().collect()
+        }
+    }
+
+    impl<K: Eq + Hash, V> Extend<(K, V)> for HashMap<K, V> {
+        fn extend<I: IntoIterator<Item = (K, V)>>(&mut self, iter: I) {
+            self.0.extend(iter);
+        }
+    }
+
+    impl<K, V> IntoIterator for HashMap<K, V> {
+        type Item = (K, V);
+        type IntoIter = std::collections::hash_map::IntoIter<K, V>;
+        fn into_iter(self) -> Self::IntoIter {
+            self.0.into_iter()
+        }
+    }
+
+    impl<'a, K, V> IntoIterator for &'a HashMap<K, V> {
+        type Item = (&'a K, &'a V);
+        type IntoIter = std::collections::hash_map::Iter<'a, K, V>;
+        fn into_iter(self) -> Self::IntoIter {
+            self.0.iter()
+        }
+    }
+
+    impl<'a, K, V> IntoIterator for &'a mut HashMap<K, V> {
+        type Item = (&'a K, &'a mut V);
+        type IntoIter = std::collections::hash_map::IterMut<'a, K, V>;
+        fn into_iter(self) -> Self::IntoIter {
+            self.0.iter_mut()
+        }
+    }
+
+    impl<K: Eq + Hash, V: PartialEq> PartialEq for HashMap<K, V> {
+        fn eq(&self, other: &Self) -> bool {
+            self.0 == other.0
+        }
+    }
+
+    impl<K: Eq + Hash, V: Eq> Eq for HashMap<K, V> {}
+
+    #[derive(Clone, Debug)]
+    pub struct HashSet<T>(std::collections::HashSet<T, SimState>);
+
+    impl<T> HashSet<T> {
+        #[must_use]
+        pub fn new() -> Self {
+            Self(std::collections::HashSet::with_hasher(SimState::new()))
+        }
+
+        #[must_use]
+        pub fn with_capacity(n: usize) -> Self {
+            Self(std::collections::HashSet::with_capacity_and_hasher(
+                n,
+                SimState::new(),
+            ))
+        }
+    }
+
+    impl<T> Default for HashSet<T> {
+        fn default() -> Self {
+            Self::new()
+        }
+    }
+
+    impl<T> Deref for HashSet<T> {
+        type Target = std::collections::HashSet<T, SimState>;
+        fn deref(&self) -> &Self::Target {
+            &self.0
+        }
+    }
+
+    impl<T> DerefMut for HashSet<T> {
+        fn deref_mut(&mut self) -> &mut Self::Target {
+            &mut self.0
+        }
+    }
+
+    impl<T: Eq + Hash> FromIterator<T> for HashSet<T> {
+        fn from_iter<I: IntoIterator<Item = T>>(iter: I) -> Self {
+            let mut s = Self::new();
+            s.0.extend(iter);
+            s
+        }
+    }
+
+    impl<T: Eq + Hash, const M: usize> From<[T; M]> for HashSet<T> {
+        fn from(a: [T; M]) -> Self {
+            a.into_iter().collect()
+        }
+    }
+
+    impl<T: Eq + Hash> Extend<T> for HashSet<T> {
+        fn extend<I: IntoIterator<Item = T>>(&mut self, iter: I) {
+            self.0.extend(iter);
+        }
+    }
+
+    impl<T> IntoIterator for HashSet<T> {
+        type Item = T;
+        type IntoIter = std::collections::hash_set::IntoIter<T>;
+        fn into_iter(self) -> Self::IntoIter {
+            self.0.into_iter()
+        }
+    }
+
+    impl<'a, T> IntoIterator for &'a HashSet<T> {
+        type Item = &'a T;
+        type IntoIter = std::collections::hash_set::Iter<'a, T>;
+        fn into_iter(self) -> Self::IntoIter {
+            self.0.iter()
+        }
+    }
+
+    impl<T: Eq + Hash> PartialEq for HashSet<T> {
+        fn eq(&self, other: &Self) -> bool {
+            self.0 == other.0
+        }
+    }
+
+    impl<T: Eq + Hash> Eq for HashSet<T> {}
+
+    impl<T: Eq + Hash + Clone> Sub<&HashSet<T>> for &HashSet<T> {
+        type Output = HashSet<T>;
+        fn sub(self, rhs: &HashSet<T>) -> HashSet<T> {
+            self.0.difference(&rhs.0).cloned().collect()
+        }
+    }
+}
+
+/// One vertex slot, present or not.
+#[derive(Clone, Debug, PartialEq, Eq, Hash)]
+pub struct Slot {
+    /// 0 = absent, 1 = present and ungrouped, >= 2 = member of that group.
+    pub branch: usize,
+    /// 0 = empty, 1 = stored (unread), 2 = taken (read).
+    pub persistence: u8,
+    /// The bytes of the datum in the slot (also when absent or empty).
+    pub data: Vec<u8>,
+    /// Whether the datum is heap-encoded.
+    pub heap: bool,
+    /// The edges in enumeration order.
+    pub edges: Vec<(Label, usize)>,
+}
+
+/// The complete state of a graph.
+#[derive(Clone, Debug, PartialEq, Eq, Hash)]
+pub struct Snapshot {
+    /// Capacity of the vertex store.
+    pub cap: usize,
+    /// Position of the id allocator.
+    pub next_v: usize,
+    /// One entry per slot of the vertex store, `None` for a hole.
+    pub slots: Vec<Option<Slot>>,
+    /// One entry per slot of the group table: the member list.
+    pub members: Vec<Option<Vec<usize>>>,
+    /// One entry per slot of the counter table.
+    pub counters: Vec<Option<usize>>,
+}
+
+impl<const N: usize> Sodg<N> {
+    /// Copy the complete internal state out, in plain types.
+    #[must_use]
+    pub fn verif_snapshot(&self) -> Snapshot {
+        let cap = self.vertices.capacity();
+        let mut slots = Vec::with_capacity(cap);
+        for k in 0..cap {
+            slots.push(self.vertices.get(k).map(|vtx| Slot {
+                branch: vtx.branch,
+                persistence: match vtx.persistence {
+                    Persistence::Empty => 0,
+                    Persistence::Stored => 1,
+                    Persistence::Taken => 2,
+                },
+                data: match &vtx.data {
+                    Hex::Vector(v) => v.clone(),
+                    Hex::Bytes(a, n) => a[..(*n).min(a.len())].to_vec(),
+                },
+                heap: matches!(vtx.data, Hex::Vector(_)),
+                edges: vtx.edges.iter().map(|(a, v)| (*a, *v)).collect(),
+            }));
+        }
+        let mut members = Vec::new();
+        for k in 0..self.branches.capacity() {
+            members.push(
+                self.branches
+                    .get(k)
+                    .map(|s| s.iter().copied().collect::<Vec<usize>>()),
+            );
+        }
+        let mut counters = Vec::new();
+        for k in 0..self.stores.capacity() {
+            counters.push(self.stores.get(k).copied());
+        }
+        Snapshot {
+            cap,
+            next_v: self.next_v,
+            slots,
+            members,
+            counters,
+        }
+    }
+}
